@@ -39,9 +39,41 @@ let problem s =
   let rs = rep s req in let cs = nlist s in let soft = nlist s in
   { pr_reqs = rs; pr_cons = cs; pr_soft = soft }
 
+let var s = let k = next s in
+  if k = 0 then VRoot else if k = 1 then VSol (nextn s) else (let n = nextn s in let j = nextn s in VHelp (n, j))
+let lit s = let v = var s in let b = next s = 1 in (v, b)
+let clause s =
+  let k = next s in
+  let kind = match k with
+    | 0 -> KRoot
+    | 1 -> let p = var s in let r = req s in let cands = rep s nlist in KRequires (p, r, cands)
+    | 2 -> KForbid (nextn s)
+    | 3 -> let p = var s in let f = nextn s in let v = nextn s in KConstrains (p, f, v)
+    | 4 -> let l = nextn s in let o = nextn s in KLock (l, o)
+    | 5 -> let x = nextn s in let r = nextn s in KExcluded (x, r)
+    | _ -> KLearnt (nlist s) in
+  let lits = rep s lit in
+  { ck = kind; cl_lits = lits }
+let event s = let k = next s in
+  if k = 0 then (let l = lit s in let r = nextn s in EvAssign (l, r)) else if k = 1 then EvUndoLast else EvClear
+let log s =
+  let db = rep s clause in let evs = rep s event in let tr = rep s lit in
+  { l_db = db; l_events = evs; l_trail = tr }
+
 let b x = if x then "1" else "0"
 let plist l = String.concat " " (List.map (fun x -> string_of_int (int_of_n x)) l)
 let polist = function None -> "none" | Some l -> "some " ^ plist l
+
+(* diagnostics only: index of the first clause that is neither a fact nor a certified learnt clause *)
+let bad_clause u p lg =
+  let db = lg.l_db in
+  let up = table_provider u in
+  let rec go i pre = function
+    | [] -> "-"
+    | c :: t ->
+      let ok = (match c.ck with KLearnt _ -> learnt_okb pre c | _ -> factb up p (db_idx db) c) in
+      if ok then go (i + 1) (pre @ [c]) t else string_of_int i in
+  go 0 [] db
 
 let () =
   try
@@ -62,6 +94,20 @@ let () =
               (* U P -> solvable | greedy | explicit-first *)
               let u = universe s in let p = problem s in
               Printf.sprintf "%s | %s | %s" (b (o_solvable u p)) (polist (o_greedy u p)) (polist (o_explicit_first u p))
+            | "logsat" ->
+              (* U P log sol -> db-ok run-ok sat-ok [first bad clause index | -] *)
+              let u = universe s in let p = problem s in let lg = log s in let sol = nlist s in
+              let dbok = check_db u p lg in
+              let runok = (match check_run p lg with Some _ -> true | None -> false) in
+              let satok = check_sat_log u p lg sol in
+              let lenok = check_sat_log_lenient u p lg sol in
+              Printf.sprintf "%s %s %s %s %s" (b dbok) (b runok) (b satok) (b lenok) (bad_clause u p lg)
+            | "logunsat" ->
+              let u = universe s in let p = problem s in let lg = log s in
+              let dbok = check_db u p lg in
+              let runok = (match check_run p lg with Some _ -> true | None -> false) in
+              let unsatok = check_unsat_log u p lg in
+              Printf.sprintf "%s %s %s %s" (b dbok) (b runok) (b unsatok) (bad_clause u p lg)
             | _ -> "error unknown-command"
           with e -> "error " ^ Printexc.to_string e in
         print_string id; print_char ' '; print_endline out
